@@ -63,6 +63,11 @@ pub struct OCase {
     pub cfg: NodeCfg,
     pub partitions: u32,
     pub ops: Vec<OOp>,
+    /// a second topic with the same partition count, the same consumer names and the same group ids: its
+    /// partitions are the "virtual partitions" partitions+1 .. 2*partitions of the model. Purge and group
+    /// deletion act on the first topic only - the second one's offsets must not notice.
+    #[serde(default)]
+    pub two_topics: bool,
 }
 
 const CNAMES: [&str; 3] = ["alpha", "c", "consumer-with-a-long-name-0123456789"];
@@ -117,6 +122,14 @@ impl<'a> OInterp<'a> {
     fn pid(&self, sel: u16) -> u32 {
         1 + pick(sel, self.log.len()) as u32
     }
+    /// virtual partition -> (topic id, partition id within it)
+    fn at(&self, v: u32) -> (Identifier, u32) {
+        let parts = self.case.partitions.max(1);
+        (Identifier::numeric(1 + (v - 1) / parts).unwrap(), (v - 1) % parts + 1)
+    }
+    fn in_first_topic(&self, v: u32) -> bool {
+        v <= self.case.partitions.max(1)
+    }
     fn panics(&mut self, what: &str) -> Check {
         let ps: Vec<_> = take_panics().into_iter().filter(is_repo_panic).collect();
         if let Some(p) = ps.first() {
@@ -139,13 +152,17 @@ impl<'a> OInterp<'a> {
         Ok(())
     }
     fn ensure_groups(&mut self) -> Check {
-        for g in 1..=3u32 {
-            let n = self.node();
-            let have = n.block_on(async { self.cl().get_consumer_group(&sid(), &tid(), &Identifier::numeric(g).unwrap()).await });
-            if let Ok(None) = have {
-                let r = n.block_on(async { self.cl().create_consumer_group(&sid(), &tid(), &format!("g{g}"), Some(g)).await });
-                if let Err(e) = r {
-                    return Err(self.fail("setup", format!("create_consumer_group({g}) failed: {e}")));
+        let topics = if self.case.two_topics { 2u32 } else { 1 };
+        for t in 1..=topics {
+            let t = Identifier::numeric(t).unwrap();
+            for g in 1..=3u32 {
+                let n = self.node();
+                let have = n.block_on(async { self.cl().get_consumer_group(&sid(), &t, &Identifier::numeric(g).unwrap()).await });
+                if let Ok(None) = have {
+                    let r = n.block_on(async { self.cl().create_consumer_group(&sid(), &t, &format!("g{g}"), Some(g)).await });
+                    if let Err(e) = r {
+                        return Err(self.fail("setup", format!("create_consumer_group({g}) failed: {e}")));
+                    }
                 }
             }
         }
@@ -160,12 +177,18 @@ impl<'a> OInterp<'a> {
         let r = n.block_on(async {
             self.cl().create_stream("s", Some(1)).await?;
             self.cl().create_topic(&sid(), "t", parts, CompressionAlgorithm::None, None, Some(1), IggyExpiry::NeverExpire, MaxTopicSize::Unlimited).await?;
+            if self.case.two_topics {
+                self.cl().create_topic(&sid(), "u", parts, CompressionAlgorithm::None, None, Some(2), IggyExpiry::NeverExpire, MaxTopicSize::Unlimited).await?;
+            }
             Ok::<(), IggyError>(())
         });
         if let Err(e) = r {
             return Err(self.fail("setup", format!("{e}")));
         }
-        self.log = vec![vec![]; parts as usize];
+        self.log = vec![vec![]; parts as usize * if self.case.two_topics { 2 } else { 1 }];
+        if self.case.two_topics {
+            self.out.label("two-topics");
+        }
         self.ensure_groups()?;
         let ops = self.case.ops.clone();
         for (i, op) in ops.iter().enumerate() {
@@ -193,7 +216,8 @@ impl<'a> OInterp<'a> {
     fn check_get(&mut self, w: &Who, pid: u32, why: &str) -> Check {
         let n = self.node();
         let c = consumer_of(w);
-        let r = n.block_on(async { self.cl().get_consumer_offset(&c, &sid(), &tid(), Some(pid)).await });
+        let (tp, rp) = self.at(pid);
+        let r = n.block_on(async { self.cl().get_consumer_offset(&c, &sid(), &tp, Some(rp)).await });
         self.panics("get_consumer_offset")?;
         let want = self.offs.get(&(w.clone(), pid)).copied();
         match r {
@@ -205,8 +229,8 @@ impl<'a> OInterp<'a> {
                         "{why}: get_consumer_offset({:?}, partition {pid}) returned {:?}, the model holds {:?}; offsets stored on this partition: {:?}", w, got, want, others)));
                 }
                 if let Some(i) = info {
-                    if i.partition_id != pid {
-                        return Err(self.fail("get-wrong-partition", format!("asked partition {pid}, answer names partition {}", i.partition_id)));
+                    if i.partition_id != rp {
+                        return Err(self.fail("get-wrong-partition", format!("asked partition {rp} of topic {tp}, answer names partition {}", i.partition_id)));
                     }
                     if i.current_offset != self.current(pid) {
                         return Err(self.fail("get-current-offset", format!("get reports current_offset {} expected {}", i.current_offset, self.current(pid))));
@@ -237,7 +261,8 @@ impl<'a> OInterp<'a> {
                     ms.push(Message::new(None, Bytes::from(p), None));
                 }
                 let n = self.node();
-                let r = n.block_on(async { self.cl().send_messages(&sid(), &tid(), &Partitioning::partition_id(pid), &mut ms).await });
+                let (tp, rp) = self.at(pid);
+                let r = n.block_on(async { self.cl().send_messages(&sid(), &tp, &Partitioning::partition_id(rp), &mut ms).await });
                 if let Err(e) = r {
                     return Err(self.fail("send-failed", format!("{e}")));
                 }
@@ -247,7 +272,8 @@ impl<'a> OInterp<'a> {
             OOp::Flush { part } => {
                 let pid = self.pid(part);
                 let n = self.node();
-                let _ = n.block_on(async { self.cl().flush_unsaved_buffer(&sid(), &tid(), pid, false).await });
+                let (tp, rp) = self.at(pid);
+                let _ = n.block_on(async { self.cl().flush_unsaved_buffer(&sid(), &tp, rp, false).await });
                 Ok(())
             }
             OOp::Store { who, part, frac, beyond } => {
@@ -260,7 +286,8 @@ impl<'a> OInterp<'a> {
                 let allowed = offset <= cur;
                 let n = self.node();
                 let c = consumer_of(&who);
-                let r = n.block_on(async { self.cl().store_consumer_offset(&c, &sid(), &tid(), Some(pid), offset).await });
+                let (tp, rp) = self.at(pid);
+                let r = n.block_on(async { self.cl().store_consumer_offset(&c, &sid(), &tp, Some(rp), offset).await });
                 self.panics("store_consumer_offset")?;
                 match (r, allowed) {
                     (Ok(_), true) => {
@@ -291,7 +318,8 @@ impl<'a> OInterp<'a> {
                 let pid = self.pid(part);
                 let n = self.node();
                 let c = consumer_of(&who);
-                let r = n.block_on(async { self.cl().delete_consumer_offset(&c, &sid(), &tid(), Some(pid)).await });
+                let (tp, rp) = self.at(pid);
+                let r = n.block_on(async { self.cl().delete_consumer_offset(&c, &sid(), &tp, Some(rp)).await });
                 self.panics("delete_consumer_offset")?;
                 let had = self.offs.contains_key(&(who.clone(), pid));
                 match (r, had) {
@@ -309,7 +337,8 @@ impl<'a> OInterp<'a> {
                 let count = count.max(1) as u32;
                 let n = self.node();
                 let c = consumer_of(&who);
-                let r = n.block_on(async { self.cl().poll_messages(&sid(), &tid(), Some(pid), &c, &PollingStrategy::next(), count, auto).await });
+                let (tp, rp) = self.at(pid);
+                let r = n.block_on(async { self.cl().poll_messages(&sid(), &tp, Some(rp), &c, &PollingStrategy::next(), count, auto).await });
                 self.panics("poll next")?;
                 let pm = match r {
                     Ok(pm) => pm,
@@ -353,13 +382,18 @@ impl<'a> OInterp<'a> {
                 if let Err(e) = r {
                     return Err(self.fail("purge-failed", format!("{e}")));
                 }
-                for l in self.log.iter_mut() {
+                let first = self.case.partitions.max(1) as usize;
+                for l in self.log.iter_mut().take(first) {
                     l.clear();
                 }
                 if !self.offs.is_empty() {
                     self.out.label("purge-with-offsets");
                 }
-                self.offs.clear();
+                if self.offs.keys().any(|(_, v)| *v as usize > first) {
+                    self.out.label("purge-beside-offsets-of-the-other-topic");
+                    self.out.nontrivial = true;
+                }
+                self.offs.retain(|(_, v), _| *v as usize > first);
                 self.sweep("after purge")
             }
             OOp::DeleteGroup { g } => {
@@ -374,7 +408,12 @@ impl<'a> OInterp<'a> {
                 if had {
                     self.out.label("group-deleted-with-offsets");
                 }
-                self.offs.retain(|(w, _), _| *w != Who::Group(g));
+                let first = self.case.partitions.max(1);
+                if self.offs.keys().any(|(w, v)| *w == Who::Group(g) && *v > first) {
+                    self.out.label("group-deleted-beside-its-namesake-in-the-other-topic");
+                    self.out.nontrivial = true;
+                }
+                self.offs.retain(|(w, v), _| !(*w == Who::Group(g) && *v <= first));
                 self.ensure_groups()?;
                 self.sweep("after consumer group deletion")
             }
@@ -427,8 +466,8 @@ impl Engine for Offsets {
             3 => Just(OOp::Restart),
             1 => any::<u16>().prop_map(|part| OOp::Flush { part }),
         ];
-        (prop_oneof![Just(1u32), Just(3), Just(1000)], prop_oneof![Just(600u64), Just(1_000_000)], 1u32..=3, proptest::collection::vec(op, 1..=max_ops))
-            .prop_map(|(thr, seg, partitions, ops)| OCase { cfg: NodeCfg { save_threshold: thr, segment_size: seg, ..NodeCfg::default() }, partitions, ops })
+        (prop_oneof![Just(1u32), Just(3), Just(1000)], prop_oneof![Just(600u64), Just(1_000_000)], 1u32..=3, proptest::collection::vec(op, 1..=max_ops), any::<bool>())
+            .prop_map(|(thr, seg, partitions, ops, two_topics)| OCase { cfg: NodeCfg { save_threshold: thr, segment_size: seg, ..NodeCfg::default() }, partitions, ops, two_topics })
             .boxed()
     }
     fn run(&self, case: &OCase, p: &Params) -> Outcome {
